@@ -82,6 +82,30 @@ def make_B_same_names():
     return B
 
 
+def make_B_kwonly():
+    from statemachine import State, StateMachine
+
+    def build():
+        class A(StateMachine):  # noqa: F811
+            a = State(initial=True)
+            b = State()
+            go = a.to(b) | b.to(a)
+
+            def on_go(self, x, source, *, other=None):
+                return ("K", x, other)
+
+            def on_enter_state(self, state):
+                pass
+
+        return A
+
+    K = build()
+    for n in ("on_go", "on_enter_state"):
+        getattr(K, n).__qualname__ = f"make_A.<locals>.A.{n}"
+    K.__qualname__ = "make_A.<locals>.A"
+    return K
+
+
 NEXT = {("a", True): "b", ("a", False): "c", ("b", None): "c", ("c", None): "a"}
 
 
@@ -107,14 +131,29 @@ BOUNDS = {
     "thorough": "all 49 disturber pairs.",
 }
 OUTSIDE = "interleavings across OS threads; more than two disturbers per history; pickling (C17)"
-OBLIGATIONS = ["model-of-same-class-before", "undisturbed", "same-names-defined", "second-instance", "subclass-defined", "binding-checked"]
+OBLIGATIONS = ["same-names-kwonly-first", "model-of-same-class-before", "undisturbed", "same-names-defined", "second-instance", "subclass-defined", "binding-checked"]
 ASSUMPTIONS = [
+    "the library's process-wide signature cache is emptied (through its own clear_cache hook, when present) at the start of every path, so that a path is a complete history",
     "A's expected behaviour is a table (A alone); comparing with a re-run would share the caches under test",
 ]
 
 
+def reset_process_caches():
+    """Each path must be a self-contained history: forget what earlier paths of this worker process left in the
+    library's process-wide signature cache (otherwise the order in which paths are explored decides who is cached first)."""
+    try:
+        from statemachine.signature import SignatureAdapter
+
+        clear = getattr(SignatureAdapter.from_callable, "clear_cache", None)
+        if clear is not None:
+            clear()
+    except Exception:  # noqa: BLE001 - the cache may have been refactored away
+        pass
+
+
 def run(ctx, params):
     with ctx.notracing():
+        reset_process_caches()
         A = make_A()
         base_transitions = {s.id: [(t.target.id, str(t.event)) for t in s.transitions] for s in A.states}
         base_events = sorted(str(e) for e in A.events)
@@ -124,8 +163,15 @@ def run(ctx, params):
         def __init__(self):
             self.state = None
 
-    pre = ctx.choose(3, "pre")
-    if pre:
+    pre = ctx.choose(4, "pre")
+    if pre == 3:
+        # an unrelated class with A's qualified names whose callbacks differ from A's only in keyword-only parameters
+        # is defined, instantiated and driven BEFORE A is ever instantiated
+        K = make_B_kwonly()
+        kb = K()
+        kb.send("go", 1, other="first")
+        ctx.cover("same-names-kwonly-first")
+    elif pre:
         m0 = Mdl()
         if pre == 1:
             m0.before_go = lambda: None
